@@ -472,8 +472,9 @@ func inferCells(emit func(Case)) {
 		if src != "" {
 			src += "\n"
 		}
-		src += "v := " + expr + "\nprint \"typeof\"\nprint (typeof v)\n"
-		emit(Case{Src: src, Cell: "infer: " + expr, Accept: true, Typeof: want, Why: why})
+		emit(Case{Src: src + "v := " + expr + "\nprint \"typeof\"\nprint (typeof v)\n", Cell: "infer: " + expr, Accept: true, Typeof: want, Why: why})
+		// the same expression passed directly where any is required
+		emit(Case{Src: src + "print \"typeof\"\nprint (typeof (" + expr + "))\n", Cell: "infer-as-any: " + expr, Accept: true, Typeof: want, Why: why})
 	}
 	for _, t := range typesUpTo(2) {
 		if t.K != m.Any {
@@ -499,6 +500,16 @@ func inferCells(emit func(Case)) {
 	add("[x y]", "[]any", "two variables of different types", "x:[]num", "y:[]string", "print x y")
 	add("[x x]", "[][]num", "same type", "x:[]num", "print x")
 	add("[1 x]", "[]num", "same type", "x:num", "print x")
+	add("[[]] + [[]]", "[][]any", "nested empty literals follow the rules of inferred declarations")
+	add("[[]] + [[1]]", "[][]num", "strictest type of a concatenation with a nested empty literal")
+	add("[[1]] + [[]]", "[][]num", "strictest type of a concatenation with a nested empty literal")
+	add("[{}] + [{}]", "[]{}any", "nested empty literals follow the rules of inferred declarations")
+	add("[[]] + [x]", "[][]num", "strictest type of a concatenation with a nested empty literal", "x:[]num", "print x")
+	add("([[]])", "[][]any", "nested empty literals follow the rules of inferred declarations")
+	add("[[]][:]", "[][]any", "nested empty literals follow the rules of inferred declarations")
+	add("[[]] * 2", "[][]any", "nested empty literals follow the rules of inferred declarations")
+	add("[[]][0]", "[]any", "nested empty literals follow the rules of inferred declarations")
+	add("{k:[]}.k", "[]any", "nested empty literals follow the rules of inferred declarations")
 	add("[] * 3", "[]any", "repetition of the empty literal")
 	add("[1] * 3", "[]num", "repetition keeps the type")
 	add("\"abc\"[0]", "string", "string index")
